@@ -12,7 +12,7 @@ Import ListNotations.
 
 Section HistModel.
   Context {K : Type} `{NK : Num K}.
-  Variable M : Type.                         (* what a module may remember between calls *)
+  Context {M : Type}.                        (* what a module may remember between calls *)
 
   Local Notation vec := (list K) (only parsing).
   Local Notation tenv := (nat -> list K) (only parsing).
